@@ -9,18 +9,19 @@ import (
 
 // requestOpts tunes the generator of whole requests (traceroute.RunTraceroute / HTTP handler).
 type requestOpts struct {
-	protocols    []string // "udp","udp6","icmp","icmp6","tcp-syn","tcp-sack","tcp-prefer","tcp-paris"
-	queriesMin   int
-	queriesMax   int
-	e2eMax       int
-	delays       bool
-	publicIP     float64
-	reverseDNS   float64
-	skipPrivate  float64
-	privateHops  bool
-	handler      float64
-	silentProb   float64
-	bigE2E       float64
+	protocols     []string // "udp","udp6","icmp","icmp6","tcp-syn","tcp-sack","tcp-prefer","tcp-paris"
+	queriesMin    int
+	queriesMax    int
+	e2eMax        int
+	delays        bool
+	publicIP      float64
+	reverseDNS    float64
+	skipPrivate   float64
+	privateHops   bool
+	handler       float64
+	silentProb    float64
+	bigE2E        float64
+	privateTarget float64 // chance that the destination itself has a private address (not for SACK: its listener lives on loopback)
 }
 
 var allRequestProtocols = []string{"udp", "udp6", "icmp", "icmp6", "tcp-syn", "tcp-sack", "tcp-prefer", "tcp-paris"}
@@ -70,6 +71,13 @@ func genRequestCall(rng *rand.Rand, o *requestOpts) (sim.Call, string) {
 	}
 	c.WantV6 = v.V6
 	c.Target = v.target(0)
+	if v.Entry != "sack" && chance(rng, o.privateTarget) {
+		if v.V6 {
+			c.Target = pick(rng, "fc00::1", "fdff:ffff:ffff:ffff:ffff:ffff:ffff:fffe", "fd12:3456::1")
+		} else {
+			c.Target = pick(rng, "10.0.0.1", "10.255.255.254", "172.16.0.1", "172.31.255.254", "192.168.0.1", "192.168.255.254")
+		}
+	}
 	if v.V6 && chance(rng, 0.5) {
 		c.Target = "[" + c.Target + "]"
 	}
